@@ -308,7 +308,7 @@ class Check:
             return
         for k in self._known:
             if k.get("status") == "known" and k.get("property") == self.prop and sig_match(k, sig):
-                if not any(h["sig"] == sig for h in self.known_hits):
+                if not any(h["id"] == k.get("id") for h in self.known_hits):
                     self.known_hits.append(dict(sig=sig, text=k.get("text", text), id=k.get("id")))
                 return
         if any(v["sig"] == sig for v in self.violations):
